@@ -2,7 +2,8 @@
 (***************************************************************************)
 (* C05: small worlds for the Datalog engine itself (World::run): facts     *)
 (* with arbitrary origin sets, rules with arbitrary owners and trusted     *)
-(* sets, joins, repeated variables, constants of every term type,          *)
+(* sets, joins, repeated variables, constants of every term type, facts    *)
+(* of the same name with other arities,                                    *)
 (* recursion, empty bodies, guards and unbound head variables.             *)
 (* One TLC state = one program; the spec computes the least fixpoint with  *)
 (* provenance and the sequence of naive-evaluation levels.                 *)
@@ -51,9 +52,9 @@ NoOrigin == {77}
 
 \* Init picks the seed (constants + origins of the three candidate facts)
 Init ==
-    /\ seed \in {[stage |-> 0, cs |-> cp, o1 |-> o1, o2 |-> o2, o3 |-> o3] :
+    /\ seed \in {[stage |-> 0, cs |-> cp, o1 |-> o1, o2 |-> o2, o3 |-> o3, ar |-> ar] :
                     cp \in ConstPairs, o1 \in OriginMenu \cup {NoOrigin},
-                    o2 \in OriginMenu \cup {NoOrigin}, o3 \in OriginMenu \cup {NoOrigin}}
+                    o2 \in OriginMenu \cup {NoOrigin}, o3 \in OriginMenu \cup {NoOrigin}, ar \in BOOLEAN}
     /\ prog = [facts |-> {}, rules |-> <<>>]
 
 FactsOf(sd) ==
@@ -61,6 +62,10 @@ FactsOf(sd) ==
     (IF sd.o1 = NoOrigin THEN {} ELSE {Entry(sd.o1, P(c1))})
     \cup (IF sd.o2 = NoOrigin THEN {} ELSE {Entry(sd.o2, Q(c1, c2))})
     \cup (IF sd.o3 = NoOrigin THEN {} ELSE {Entry(sd.o3, Q(c2, c2)), Entry({0}, P(c2))})
+    \* a predicate is a name AND an arity: facts p/2, q/1, q/3 and r/0 share nothing with p/1, q/2 and r/1
+    \cup (IF sd.ar THEN {Entry({0}, Atom("p", <<c1, c2>>)), Entry({0}, Atom("p", <<c2, c1>>)), Entry({0}, Atom("q", <<c1>>)),
+                          Entry({0}, Atom("q", <<c1, c2, c1>>)), Entry({0}, Atom("q", <<c2, c2, c2>>)), Entry({0}, Atom("r", <<>>))}
+          ELSE {})
 
 Next ==
     /\ seed.stage = 0
